@@ -3,6 +3,7 @@ package p_wire
 import (
 	"bytes"
 	"fmt"
+	"github.com/ethereum/go-ethereum/p2p/enode"
 	"testing"
 
 	"github.com/zen-eth/shisui/portalwire"
@@ -161,8 +162,9 @@ func TestC15_Join(t *testing.T) { pbt.Run(t, "C15", "join", genC15Join, runC15Jo
 // C15 (b): arbitrary bytes against the reference splitter
 
 type c15Split struct {
-	Class string
-	Data  []byte
+	Class    string
+	Data     []byte
+	ViaOffer bool // also hand the stream to the offer path (handleOfferedContents) of a protocol instance
 }
 
 func genVarintBytes(t *rapid.T) []byte {
@@ -251,7 +253,7 @@ func genC15Split(t *rapid.T) c15Split {
 		n := rapid.SampledFrom([]int{0, 1, 2, 3, 4, 5, 6, 13, 14, 15, 40, 200}).Draw(t, "rawn")
 		data = rapid.SliceOfN(rapid.Byte(), n, n).Draw(t, "raw")
 	}
-	return c15Split{Class: class, Data: data}
+	return c15Split{Class: class, Data: data, ViaOffer: rapid.IntRange(0, 9).Draw(t, "viaOffer") == 0}
 }
 
 // goodLeadingItems counts the well-formed items a stream starts with (minimal or not, 32-bit prefixes).
@@ -278,6 +280,35 @@ func goodLeadingItems(b []byte) int {
 func runC15Split(p c15Split, c *stats.Case) error {
 	c.Class("class:" + p.Class)
 	want, minimal, werr := model.SplitStream(p.Data)
+	if p.ViaOffer {
+		// the same stream as the body of an accepted offer: it is handed to validation only if it is well formed and
+		// holds exactly one item per accepted key (1, the true number, or one more accepted keys)
+		proto := pp.Bare(5, []byte{0, 1}, nil, portalwire.History)
+		tried := map[int]bool{}
+		for _, nk := range []int{1, len(want), len(want) + 1} {
+			if nk < 1 || nk > 64 || tried[nk] {
+				continue
+			}
+			tried[nk] = true
+			keys := make([][]byte, nk)
+			for i := range keys {
+				keys[i] = []byte{0x00, byte(i), 0xc1, 0x5e}
+			}
+			err := proto.VerifHandleOfferedContents(enode.ID{}, keys, append([]byte{}, p.Data...))
+			select {
+			case <-proto.GetContent():
+			default:
+			}
+			okRef := werr == nil && len(want) == nk
+			if err == nil && !okRef {
+				return fmt.Errorf("offer with %d accepted keys: a stream that is not exactly %d well-formed items (reference: %v, %d items) was handed to validation: %x", nk, nk, werr, len(want), clipHex(p.Data))
+			}
+			if err != nil && okRef && minimal {
+				return fmt.Errorf("offer with %d accepted keys: the well-formed stream of %d items was refused: %v", nk, nk, err)
+			}
+		}
+		c.NT("stream-as-body-of-an-accepted-offer")
+	}
 	got, gerr := portalwire.VerifDecodeContents(append([]byte{}, p.Data...))
 	if werr != nil {
 		c.NT("malformed:" + werr.Error())
